@@ -56,10 +56,17 @@ def load_function(relpath, qualname):
     cls = None
     for p in parts:
         found = None
+        want = 1
+        if "#" in p:                      # "name#n": the n-th definition of that name (functools.singledispatch registrations named `_`)
+            p, k_ = p.split("#")
+            want = int(k_)
+        seen_ = 0
         for ch in ast.walk(node) if node is not mod and not isinstance(node, ast.ClassDef) else ast.iter_child_nodes(node):
             if isinstance(ch, (ast.FunctionDef, ast.AsyncFunctionDef, ast.ClassDef)) and ch.name == p and ch is not node:
-                found = ch
-                break
+                seen_ += 1
+                if seen_ == want:
+                    found = ch
+                    break
         if found is None:
             raise LookupError("function %s not found in %s" % (qualname, relpath))
         if isinstance(found, ast.ClassDef):
